@@ -86,7 +86,7 @@ def oracle(ctx, p, o, i):
 def run(ctx):
     rng = ctx.rng
     projects = [proj.gen_project(rng) for _ in range(ctx.budget(600, 12000))]
-    generic_pipeline_check(ctx, [("I18nVerif.Theorems.C11", "C11_")], projects, oracle, "C11")
+    generic_pipeline_check(ctx, [("I18nVerif.Theorems.C11", "C11_"), ("I18nVerif.Theorems.C11Full", "C11_"), ("I18nVerif.Theorems.C11Pipeline", "C11_")], projects, oracle, "C11")
     c11json.run_json_part(ctx)
     ctx.assumptions += PARSER_ASSUMPTIONS
     finish_broken(ctx, f"{len(projects)} projects + JSON export projects")
